@@ -146,6 +146,11 @@ func Ed25519FromSeed(seed []byte) (ed25519.PublicKey, ed25519.PrivateKey) {
 // Filler returns n deterministic bytes derived from tag (cheap xorshift; not crypto).
 func Filler(n int, tag uint64) []byte {
 	out := make([]byte, n)
+	if guardsOn {
+		full := guardedAlloc(n)
+		out = full[:n]
+		defer register(full, n)
+	}
 	x := tag*0x9E3779B97F4A7C15 + 0x1234567
 	if x == 0 {
 		x = 1
